@@ -173,7 +173,12 @@ NestPieces ==
    P("~[~[in0~;in1~]~;out1~]", <<IntV(0), IntV(1)>>), P("~[a~;~[in0~;in1~]~]|", <<IntV(1), IntV(0)>>), P("~:[no~;~:[n2~;y2~]~]", <<Sy("t"), Nil>>),
    P("~@[~@[<~a>~]~]", <<IntV(4)>>), P("~{~:[n~;y~]~}", <<L(<<Nil, Sy("t"), Nil>>)>>), P("~[~{~a~}~]", <<IntV(0), L(<<IntV(5), IntV(6)>>)>>),
    P("~{~[zero~;one~]~}", <<L(<<IntV(1), IntV(0)>>)>>), P("~{~#[~;last ~a~:;~a, ~]~}", <<L(<<IntV(1), IntV(2), IntV(3)>>)>>)}
-BlockPieces == IterPieces \cup CondPieces \cup CasePieces \cup IndirectPieces \cup NestPieces
+\* long output (more than 4096 characters) produced inside and outside of blocks: the text does not depend on how the
+\* destination takes it
+LongS == [k |-> "str", v |-> [i \in 1..4200 |-> IF i % 2 = 1 THEN "A" ELSE "b"]]
+LongPieces == {P("~a", <<LongS>>), P("<~(~a~)>", <<LongS>>), P("<~:@(x~a~)>", <<LongS>>), P("a~@{~a-~}z", <<LongS, S("Q")>>),
+               P("~@[~a~]", <<LongS>>)}
+BlockPieces == IterPieces \cup CondPieces \cup CasePieces \cup IndirectPieces \cup NestPieces \cup LongPieces
 
 Grid == CASE Family = "int" -> IntPieces [] Family = "radix" -> RadixPieces [] Family = "as" -> AsPieces [] Family = "eng" -> EngPieces [] Family = "roman" -> RomanPieces
           [] Family = "misc" -> MiscPieces \cup Simple \cup Movers \cup MovePieces [] Family = "block" -> BlockPieces
